@@ -1,9 +1,165 @@
+(* C44 — Explicit configuration is never overridden by network defaults.
+   ONLY property statements; proofs are in Proofs/C44.v.  The model (Model/C44.v) is ReadConfig with
+   resolveNetworks / resolveContractsAddresses / resolvePeers / resolveElectrum as written; an
+   [input] is: the embedded defaults, the flag set (which network flags exist and their values),
+   whether ReadConfig runs under a cobra command, the configuration file (absent / unreadable /
+   read), per field the value in the file and the value given by flag (each optional), and the
+   oracle for the random Electrum pick.  [explicit i zero s] is what the sources say for a field:
+   the flag value if the flag was given, else the file value, else [zero] (empty). *)
 From Coq Require Import NArith List Bool.
 From KV Require Import Model.C44 Proofs.C44.
 Import ListNotations.
 Open Scope N_scope.
 
-Theorem contracts_resolution_idempotent : forall defs addrs,
-  resolve_contracts defs (resolve_contracts defs addrs) = resolve_contracts defs addrs.
-Proof. exact Proofs.C44.resolve_contracts_idem. Qed.
-Print Assumptions contracts_resolution_idempotent.
+(* precedence of the sources, for every field alike: flag > file > unset *)
+Theorem explicit_is_flag_then_file : forall (A : Type) (i : input) (zero : A) (s : src A),
+  explicit i zero s =
+  match (if has_flags i then s_flag s else None), (if file_read i then s_file s else None) with
+  | Some v, _ => v
+  | None, Some v => v
+  | None, None => zero
+  end.
+Proof. exact Proofs.C44.explicit_precedence. Qed.
+Print Assumptions explicit_is_flag_then_file.
+
+(* For EVERY input on which ReadConfig gets to the resolution stage (it returns no error, or only
+   the final validation error): a non-empty explicit peers list, a non-empty explicit Electrum
+   URL and every non-empty explicit contract address are in the resulting Config verbatim --
+   whatever the network, whatever the embedded defaults, whatever the random pick. *)
+Theorem explicit_values_kept : forall i, reached (o_err (read_config i)) = true ->
+  (explicit i [] (i_peers i) <> [] -> o_peers (read_config i) = explicit i [] (i_peers i)) /\
+  (explicit i 0 (i_electrum i) <> 0 -> o_electrum (read_config i) = explicit i 0 (i_electrum i)) /\
+  (forall k s d, nth_error (i_contracts i) k = Some s -> nth_error (e_contracts (i_env i)) k = Some d ->
+                 explicit i 0 s <> 0 ->
+                 nth_error (o_contracts (read_config i)) k = Some (explicit i 0 s)).
+Proof. exact Proofs.C44.explicit_values_kept. Qed.
+Print Assumptions explicit_values_kept.
+
+(* A default appears only where the value was left unset, and it is the default of the selected
+   network: peers of mainnet / testnet only (none for developer and unknown); an Electrum URL from
+   the embedded list of the resolved Bitcoin network, mainnet / testnet only (none for regtest and
+   unknown); the contract's own embedded address (the same for every network). *)
+Theorem defaults_only_where_unset : forall i, reached (o_err (read_config i)) = true ->
+  (explicit i [] (i_peers i) = [] ->
+     if has_defaults (selected i) then e_peers (i_env i) (selected i) = Some (o_peers (read_config i))
+     else o_peers (read_config i) = []) /\
+  (explicit i 0 (i_electrum i) = 0 ->
+     if btc_has_defaults (o_btc (read_config i))
+     then exists l, e_urls (i_env i) (o_btc (read_config i)) = Some l /\ In (o_electrum (read_config i)) l
+     else o_electrum (read_config i) = 0) /\
+  (forall k s d, nth_error (i_contracts i) k = Some s -> nth_error (e_contracts (i_env i)) k = Some d ->
+                 explicit i 0 s = 0 ->
+                 nth_error (o_contracts (read_config i)) k = Some d).
+Proof. exact Proofs.C44.defaults_only_where_unset. Qed.
+Print Assumptions defaults_only_where_unset.
+
+(* The Ethereum and the Bitcoin network are always the pair of ONE network type: of the selected
+   one whenever there is a flag set (even when ReadConfig fails later); without a flag set
+   (flagSet = nil, only the package's tests call it so) resolveNetworks is skipped, both stay
+   "unknown" while the peers default to mainnet's. *)
+Theorem networks_follow_selection : forall i,
+  (has_flags i = true ->
+     o_eth (read_config i) = net_eth (selected i) /\ o_btc (read_config i) = net_btc (selected i)) /\
+  (has_flags i = false ->
+     o_eth (read_config i) = net_eth NUnknown /\ o_btc (read_config i) = net_btc NUnknown /\
+     selected i = NMainnet) /\
+  (exists n, o_eth (read_config i) = net_eth n /\ o_btc (read_config i) = net_btc n).
+Proof. exact Proofs.C44.networks_follow_selection. Qed.
+Print Assumptions networks_follow_selection.
+
+(* the pairs as coded, and each network of a pair determines the other *)
+Theorem network_pairs :
+  (net_eth NMainnet = EMainnet /\ net_btc NMainnet = BMainnet) /\
+  (net_eth NTestnet = ESepolia /\ net_btc NTestnet = BTestnet) /\
+  (net_eth NDeveloper = EDeveloper /\ net_btc NDeveloper = BRegtest) /\
+  (net_eth NUnknown = EUnknown /\ net_btc NUnknown = BUnknown) /\
+  (forall n n', net_eth n = net_eth n' <-> net_btc n = net_btc n').
+Proof. exact Proofs.C44.network_table. Qed.
+Print Assumptions network_pairs.
+
+(* network selection as coded: testnet before developer before mainnet, --mainnet is never read,
+   and with the three flags defined resolveNetworks cannot fail *)
+Theorem selection_as_coded : forall i m t d,
+  i_flags i = FSet m (Some t) (Some d) ->
+  selected i = (if t then NTestnet else if d then NDeveloper else NMainnet) /\
+  o_err (read_config i) <> EResolveNetworks.
+Proof. exact Proofs.C44.selection_as_coded. Qed.
+Print Assumptions selection_as_coded.
+
+(* with at most one network flag given, the selected network is the one meant *)
+Theorem unambiguous_selection : forall i m t d,
+  i_flags i = FSet (Some m) (Some t) (Some d) -> (flags_given i <= 1)%nat ->
+  candidates i = [selected i] /\
+  selected i = (if m then NMainnet else if t then NTestnet else if d then NDeveloper else NMainnet).
+Proof. exact Proofs.C44.unambiguous_candidates. Qed.
+Print Assumptions unambiguous_selection.
+
+(* the network flags are mutually exclusive: a command given two of them is refused (after its
+   PreRun, where ReadConfig has already run, and before its Run), and only such a command is *)
+Theorem ambiguous_selection_refused : forall i,
+  o_refused (read_config i) = true <-> (i_cobra i = true /\ (2 <= flags_given i)%nat).
+Proof. exact Proofs.C44.ambiguous_selection_refused. Qed.
+Print Assumptions ambiguous_selection_refused.
+
+(* idempotence: each resolve function is the identity on its own results (the embedded URL lists
+   do not contain the empty string: cleanStrings) ... *)
+Theorem resolve_functions_idempotent :
+  (forall defs addrs, resolve_contracts defs (resolve_contracts defs addrs) = resolve_contracts defs addrs) /\
+  (forall e n p p', resolve_peers e n p = POk p' -> resolve_peers e n p' = POk p') /\
+  (forall e, env_wfb e = true -> forall k b u u', resolve_electrum e k b u = UOk u' ->
+             forall k', resolve_electrum e k' b u' = UOk u').
+Proof.
+  exact (conj Proofs.C44.resolve_contracts_idem
+              (conj Proofs.C44.resolve_peers_idem Proofs.C44.resolve_electrum_idem)).
+Qed.
+Print Assumptions resolve_functions_idempotent.
+
+(* ... and resolving a Config that ReadConfig produced once more changes nothing, for every
+   random pick of the second run *)
+Theorem resolving_twice_is_resolving_once : forall i, env_wfb (i_env i) = true ->
+  forall n2 k2, n2 = selected i \/ (i_flags i = FNil /\ n2 = NUnknown) ->
+  re_resolve (i_env i) n2 k2 (read_config i) = read_config i.
+Proof. exact Proofs.C44.re_resolve_fixpoint. Qed.
+Print Assumptions resolving_twice_is_resolving_once.
+
+(* the executable form evaluated on the implementation's Config is exactly the property ... *)
+Theorem spec_read_sound : forall i o o2, spec_read i o o2 = true <-> read_property i o o2.
+Proof. exact Proofs.C44.spec_read_sound. Qed.
+Print Assumptions spec_read_sound.
+
+Theorem unit_specs_sound :
+  (forall e n p l r2, spec_peers e n p (POk l) r2 = true ->
+     peers_prop p l (if has_defaults n then e_peers e n else None) /\ r2 = POk l) /\
+  (forall e b u v r2, spec_electrum e b u (UOk v) r2 = true ->
+     electrum_prop u v (if btc_has_defaults b then e_urls e b else None) /\ r2 = UOk v) /\
+  (forall m t d n er eth btc, spec_nets (FSet m t d) (Some (n, er, eth, btc)) = true ->
+     eth = net_eth n /\ btc = net_btc n /\ (er = false -> In n (candidates_of (FSet m t d)))).
+Proof. exact Proofs.C44.unit_specs_sound. Qed.
+Print Assumptions unit_specs_sound.
+
+(* ... and holds of every model output *)
+Theorem model_satisfies_property : forall i,
+  env_wfb (i_env i) = true -> length (i_contracts i) = length (e_contracts (i_env i)) ->
+  forall n2 k2, n2 = selected i \/ (i_flags i = FNil /\ n2 = NUnknown) ->
+  read_property i (read_config i) (re_resolve (i_env i) n2 k2 (read_config i)).
+Proof. exact Proofs.C44.model_satisfies_property. Qed.
+Print Assumptions model_satisfies_property.
+
+Theorem model_passes_spec : forall i,
+  env_wfb (i_env i) = true -> length (i_contracts i) = length (e_contracts (i_env i)) ->
+  forall n2 k2, n2 = selected i \/ (i_flags i = FNil /\ n2 = NUnknown) ->
+  spec_read i (read_config i) (re_resolve (i_env i) n2 k2 (read_config i)) = true.
+Proof. exact Proofs.C44.model_passes_spec. Qed.
+Print Assumptions model_passes_spec.
+
+Theorem model_passes_unit_specs :
+  (forall e n p, match resolve_peers e n p with
+                 | POk l => spec_peers e n p (POk l) (resolve_peers e n l) = true
+                 | PErr => True | PPanic => False end) /\
+  (forall e k b u, env_wfb e = true ->
+                 match resolve_electrum e k b u with
+                 | UOk v => forall k', spec_electrum e b u (UOk v) (resolve_electrum e k' b v) = true
+                 | UErr => True | UPanic => e_urls e b = Some [] end) /\
+  (forall m t d, spec_nets (FSet m t d) (model_nets (FSet m t d)) = true).
+Proof. exact Proofs.C44.model_passes_unit_specs. Qed.
+Print Assumptions model_passes_unit_specs.
